@@ -6,6 +6,7 @@
 #include "sim/net.h"
 #include <algorithm>
 #include <asl/WebSocket.h>
+#include <asl/HttpServer.h>
 #include <asl/Socket.h>
 #include <asl/String.h>
 
@@ -127,6 +128,7 @@ void genAsl(Prng& r, Plan& p, int tier)
 		p.ops.push_back(op("msg", {(int64_t)r.below(2), (int64_t)r.below(2), wsLen(r, tier), (int64_t)(r.next() >> 20)}));
 	applyNetKnobs(r, p);
 	p.p["abrupt"] = r.below(5) == 0; // the client closes right behind its last message instead of waiting for the server's
+	p.p["linked"] = r.below(4) == 0; // served through an HttpServer on the same port (HttpServer::link)
 }
 
 void compareSeq(const char* dirName, const std::vector<M>& msgs, int dir, const std::vector<std::string>& got)
@@ -162,13 +164,21 @@ void runAsl(const Plan& p)
 	std::vector<M> msgs = messagesOf(p, 16);
 	EchoSrv* srv = new EchoSrv;
 	srv->msgs = &msgs;
-	if (!srv->bind(PORT))
+	// the WebSocket server either listens itself or is linked to an HttpServer that owns the port and hands upgrade requests over
+	asl::HttpServer* http = p.get("linked") ? new asl::HttpServer : nullptr;
+	if (http)
+		http->link(*srv);
+	if (!(http ? http->bind(PORT) : srv->bind(PORT)))
 	{
 		sim::fail("harness", "bind_failed", "bind failed");
+		delete http;
 		delete srv;
 		return;
 	}
-	srv->start(true);
+	if (http)
+		http->start(true);
+	else
+		srv->start(true);
 	std::vector<std::string> clientGot;
 	bool connected = false, sawEnd = false;
 	const bool abrupt = p.get("abrupt") != 0;
@@ -206,7 +216,13 @@ void runAsl(const Plan& p)
 			ws.close();
 		}
 	}
-	srv->stop(true);
+	if (http)
+	{
+		http->stop(true);
+		delete http;
+	}
+	else
+		srv->stop(true);
 	std::vector<std::string> serverGot = srv->got;
 	int served = srv->served;
 	bool serverSawEnd = srv->sawEnd;
@@ -663,6 +679,7 @@ void runFramer(const Plan& p)
 void genHostileWs(Prng& r, Plan& p, int)
 {
 	p.p["asl_role"] = r.below(2);
+	p.p["bad_handshake"] = r.below(4) == 0 ? 1 + r.below(6) : 0;
 	std::string s;
 	int n = 1 + (int)r.below(4);
 	for (int i = 0; i < n; i++)
@@ -746,6 +763,17 @@ void runHostileWs(const Plan& p)
 		srv->start(true);
 		int fd = sim::net::rawConnectTcp(PORT);
 		std::string req = "GET / HTTP/1.1\r\nHost: x\r\nUpgrade: websocket\r\nConnection: Upgrade\r\nSec-WebSocket-Key: AAAAAAAAAAAAAAAAAAAAAA==\r\n\r\n";
+		// a hostile opening handshake (the frames that follow are then sent into whatever the server does with it)
+		switch (std::abs(p.get("bad_handshake")) % 8)
+		{
+		case 1: req = "GET\r\n\r\n"; break;                                                                  // request line without spaces
+		case 2: req = "GET / HTTP/1.1\r\nHost x\r\nUpgrade: websocket\r\n\r\n"; break;                        // header line without a colon
+		case 3: req = "GET / HTTP/1.1\r\nHost: x\r\n\r\n"; break;                                             // not an upgrade request
+		case 4: req = req.substr(0, req.size() / 2); break;                                                     // head never completed
+		case 5: req = "GET / HTTP/1.1\r\nUpgrade: websocket\r\nConnection: Upgrade\r\n\r\n"; break;           // no key
+		case 6: req = std::string("GET / HTTP/1.1\r\nUpgrade: websocket\r\nConnection: Upgrade\r\nSec-WebSocket-Key: ") + std::string(20000, 'A') + "\r\n\r\n"; break;
+		default: break;
+		}
 		sim::net::rawSend(fd, req.data(), req.size());
 		std::string head;
 		readHttpHead(fd, head);
@@ -787,6 +815,17 @@ void runHostileWs(const Plan& p)
 		if (readHttpHead(fd, head))
 		{
 			std::string resp = "HTTP/1.1 101 Switching Protocols\r\nUpgrade: websocket\r\nConnection: Upgrade\r\nSec-WebSocket-Accept: " + ref::wsAccept(headerValue(head, "Sec-WebSocket-Key")) + "\r\n\r\n";
+			// a hostile answer to the client's opening handshake
+			switch (std::abs(p.get("bad_handshake")) % 8)
+			{
+			case 1: resp = "HTTP/1.1 400 Bad Request\r\nContent-Length: 0\r\n\r\n"; break;
+			case 2: resp = "HTTP/1.1 101 Switching Protocols\r\nConnection: Upgrade\r\n\r\n"; break;        // no Upgrade header
+			case 3: resp = resp.substr(0, resp.size() / 2); break;                                          // cut inside the head
+			case 4: resp = "HTTP/1.1 101 Switching Protocols\r\nUpgrade websocket\r\n\r\n"; break;          // header line without a colon
+			case 5: resp = "\r\n"; break;
+			case 6: resp = "HTTP/1.1\r\n\r\n"; break;                                                      // status line without a code
+			default: break;
+			}
 			sim::net::rawSend(fd, resp.data(), resp.size());
 			sim::net::rawSend(fd, stream.data(), limit);
 			sim::faultFired("peer_close");
